@@ -442,7 +442,7 @@ def closure_oracle(spec):
 # ---------------------------------------------------------------------------------------------- malformed requests
 MAL = ['dup_names', 'nonstring_name', 'nonstring_single', 'unsorted_idl', 'duplicate_idl', 'descending_range', 'len_mismatch_idl',
        'len_mismatch_names', 'len_mismatch_idl_count', 'few_samples', 'multi_ensemble', 'cov_name_sep', 'cov_asym', 'cov_indef',
-       'cov_nonsquare', 'merge_duplicate', 'cov_means_count', 'cov_asym_grad', 'cov_indef_grad', 'covobs_asym_grad', 'covobs_indef']
+       'cov_nonsquare', 'merge_duplicate', 'cov_means_count', 'cov_asym_grad', 'cov_indef_grad', 'covobs_asym_grad', 'covobs_indef', 'cov_asym_tiny', 'multi_ensemble_prefix', 'merge_multi_ensemble']
 
 
 @st.composite
@@ -531,6 +531,24 @@ def malformed_oracle(spec):
             return pe.covobs.Covobs(1.0, [[1.0, 0.2 + spec['x'] * 0.01], [0.2, 1.0]], 'sys', grad=[1.0, 0.5])
         if kind == 'covobs_indef':
             return pe.covobs.Covobs(1.0, [[1.0, 1.0 + spec['x']], [1.0 + spec['x'], 1.0]], 'sys', pos=0)
+        if kind == 'cov_asym_tiny':
+            # asymmetric well above rounding (relative 1e-6 .. 1e-5) but small
+            eps = (1.0 + k % 9) * 1e-6
+            return pe.cov_Obs([1.0, 2.0], [[1.0, 0.3 * (1 + eps)], [0.3, 1.0]], 'sys') if k % 2 else \
+                pe.covobs.Covobs(1.0, np.array([[2.0, 0.5, 0.1], [0.5, 1.0, 0.2 * (1 + eps)], [0.1, 0.2, 3.0]]), 'sys', grad=[1.0, 0.5, 0.2])
+        if kind == 'multi_ensemble_prefix':
+            # two different ensembles one of whose names is a prefix of the other, in either order
+            e = names[0].split('|')[0]
+            other = (e + '0|r1') if k % 2 else (e + 'x')
+            nm, sm, il = ([names[0], other], [samples[0], samples[0]], [idl[0], idl[0]])
+            if (k // 2) % 2:
+                nm.reverse()
+            return pe.Obs(sm, nm, idl=il)
+        if kind == 'merge_multi_ensemble':
+            e = names[0].split('|')[0]
+            a = pe.Obs([samples[0]], [names[0]], idl=[idl[0]])
+            b = pe.Obs([samples[0] + 1.0], [e + '0|r1'], idl=[idl[0]])
+            return pe.merge_obs([a, b] if k % 2 else [b, a])
         if kind == 'cov_nonsquare':
             return pe.cov_Obs([1.0, 2.0], [[1.0, 0.0, 0.0], [0.0, 1.0, 0.0]], 'sys')
         if kind == 'cov_means_count':
